@@ -65,7 +65,7 @@ def thresholds(tier):
                 "hist_op_raised": 160, "state:rule_fields": 120, "state:pattern_builder": 35, "state:fold_pass": 20,
                 "sub_repeat_scripts": 5, "sub_mutations": 1, "distinct_nontrivial": 100}
     return {"children": 200, "child_results": 2200, "compared_hashseed": 150, "compared_history": 2000,
-            "hist_op_raised": 4000, "state:rule_fields": 2500, "state:pattern_builder": 800, "state:fold_pass": 500,
+            "hist_op_raised": 4000, "state:rule_fields": 2500, "state:pattern_builder": 700, "state:fold_pass": 500,
             "sub_repeat_scripts": 10, "sub_mutations": 1, "distinct_nontrivial": 2200}
 
 
